@@ -683,8 +683,19 @@ def r8(prog, run):
     if len(sasl) < 2:
         raise AnalysisBroken('C05.R8: SASL listeners not found among %s' % vals)
     n_sites = 0
+    def effective(lam, depth=0):
+        """a continuation that only forwards its result to a member function is that function"""
+        calls = [(i, n) for i, n in lam.calls() if not n.get('op') and (lam.cname(n) or '') not in ('std::move', 'std::forward')]
+        if depth < 2 and len(calls) == 1:
+            i, n = calls[0]
+            passes = any(lam.nodes[j]['k'] == 'var' and lam.nodes[j].get('vk') == 'param' and lam.nodes[j].get('pidx') == 0 for a in n.get('args', []) for j in lam.walk(a))
+            gs = [g for g in prog.callee_fns(lam, n) if g.entry is not None]
+            if passes and len(gs) == 1 and '/src/client/' in gs[0].file:
+                return effective(gs[0], depth + 1)
+        return lam
     for v, f, i, lams in C02.listener_continuations(prog, sasl):
         for lam in lams:
+            lam = effective(lam)
             n_sites += 1
             run.instance(rid)
 
@@ -713,7 +724,17 @@ def r8(prog, run):
                     if replaces_listener(c) and not any(isinstance(x, tuple) for x in out):
                         out = out + (('L', nid),)
                 return out if out != st else None
-            exits, _ = cfgx.explore(lam, (), transfer, lambda g, c, st: ev.ev(c, st), max_states=20000)
+            # the failure arm: the continuation under "the outcome is not success", or - when the outcome is dispatched with visit(overloaded{...}) -
+            # every visitor that does not take the success alternative
+            visitors = [l for l in prog.lambdas_in(lam) if len(l.params) == 1 and l.parent_id == lam.id]
+            dispatch = [l for l in visitors if not re.search(r'\bSuccess\b', l.params[0].get('t') or '')]
+            if visitors and len(dispatch) < len(visitors) and dispatch and any((lam.cname(n) or '').endswith('visit') for _, n in lam.calls()):
+                exits = {}
+                for l in dispatch:
+                    ex, _ = cfgx.explore(l, (), transfer, None, max_states=20000)
+                    exits.update(ex)
+            else:
+                exits, _ = cfgx.explore(lam, (), transfer, lambda g, c, st: ev.ev(c, st), max_states=20000)
             bad = None
             for st, wit in exits.items():
                 ls = [x for x in st if isinstance(x, tuple)]
@@ -725,7 +746,7 @@ def r8(prog, run):
             if bad:
                 run.violation(rid, '%s#%s#failure-path' % (f.outer_name(), v.split('::')[-1]), lam.loc(bad[2]) if bad[2] is not None else lam.loc(),
                               'the continuation of %s::authenticate in %s %s on a path where the outcome is not success: the mismatch / failure is not what the caller gets to see'
-                              % (v.split('::')[-1], f.display()[:50], bad[0]), cfgx.describe_path(lam, bad[1]))
+                              % (v.split('::')[-1], f.display()[:50], bad[0]))
             else:
                 run.ok(rid, lam.loc(), 'failure outcome of %s: error stored, no listener installed, on %d path(s)' % (v.split('::')[-1], len(exits)))
     if n_sites < 2:
